@@ -48,6 +48,9 @@ def mk(rng, tissue, ext, flips, shifts, k, exhaustive=False):
 
 
 def run(ctx):
+    for b in ctx.pick(["hexflower"], ["hexflower", "hex33"]):
+        ctx.mc("MC_Equivariance", ctx.pick("MC_Equivariance.cfg", "MC_Equivariance_k2.cfg"),
+               env={"BASE_FILE": os.path.join(core.VERIF, "models", "catalogue", b + ".json")}, timeout=3000)
     specs = specs_for(ctx)
     verdicts, payloads = infer.run_specs(ctx, specs, prefixes=["C07"])
     for cid, vjs in verdicts.items():
